@@ -116,9 +116,12 @@ func directivesSeq2(s string) iter.Seq2[string, string] {
 func parseDirectives(s string) map[string]string {
 	d := make(map[string]string)
 	for name, arg := range directivesSeq2(s) {
-		// "no-cache" without an argument covers the whole response: a second
-		// occurrence that names fields does not narrow it (RFC 9111 §5.2.2.4).
-		if old, seen := d[name]; seen && name == "no-cache" && old == "" {
+		// Of a directive given more than once the first occurrence is used
+		// (RFC 9111 §4.2.1), so "max-age=0, max-age=3600" has no lifetime. Only
+		// "no-cache" without an argument, which covers the whole response, is
+		// not narrowed by an occurrence that names fields, whichever comes first
+		// (RFC 9111 §5.2.2.4).
+		if old, seen := d[name]; seen && !(name == "no-cache" && arg == "" && old != "") {
 			continue
 		}
 		d[name] = arg
